@@ -33,8 +33,35 @@ class SymHandler(Handler):
     def env(self):
         return self.sym.env
 
-    def test(self, node):
+    def boolval(self, node):
+        """Truth of a condition when it is decidable from what is known on this path: `x is None` from the NONE-ness of
+        the bound value, boolean locals, and/or/not over such parts; anything else goes to the rule's decide callback."""
+        if isinstance(node, ast.Constant) and isinstance(node.value, bool):
+            return node.value
+        if isinstance(node, ast.Name) and isinstance(self.env.get(node.id), bool):
+            return self.env[node.id]
+        if isinstance(node, ast.UnaryOp) and isinstance(node.op, ast.Not):
+            v = self.boolval(node.operand)
+            return None if v is None else not v
+        if isinstance(node, ast.BoolOp):
+            vs = [self.boolval(v) for v in node.values]
+            if isinstance(node.op, ast.And):
+                if any(v is False for v in vs):
+                    return False
+                return None if any(v is None for v in vs) else True
+            if any(v is True for v in vs):
+                return True
+            return None if any(v is None for v in vs) else False
+        if isinstance(node, ast.Compare) and len(node.ops) == 1 and isinstance(node.ops[0], (ast.Is, ast.IsNot)) \
+                and isinstance(node.comparators[0], ast.Constant) and node.comparators[0].value is None:
+            d = dotted_name(node.left)
+            if d is not None and d in self.env:
+                isnone = self.env[d] is NONE
+                return isnone if isinstance(node.ops[0], ast.Is) else not isnone
         return self.decide(node, self)
+
+    def test(self, node):
+        return self.boolval(node)
 
     def value(self, node):
         if isinstance(node, ast.IfExp):
@@ -83,6 +110,11 @@ class SymHandler(Handler):
                         for i, tt in enumerate(t.elts):
                             self.bind(tt, Term.sym(f"<{norm(node.value)}>[{i}]"))
                 else:
+                    if isinstance(node.value, (ast.BoolOp, ast.Compare)) or (isinstance(node.value, ast.UnaryOp) and isinstance(node.value.op, ast.Not)):
+                        b = self.boolval(node.value)
+                        if b is not None:
+                            self.bind(t, b)       # a boolean local decided on this path
+                            continue
                     self.bind(t, self.value(node.value))
         elif isinstance(node, ast.AnnAssign):
             if node.value is not None:
